@@ -29,7 +29,9 @@ type c11Step struct {
 	// private
 	Method string `json:"method,omitempty"`
 	Path   string `json:"path,omitempty"`
-	Auth   string `json:"auth,omitempty"` // none | wronguser | wrongpw | empty | correct
+	Auth   string `json:"auth,omitempty"` // none | wronguser | wrongpw | empty | trimmed | correct
+	// Password: the network password the node is configured with for this probe ("" = the default)
+	Password string `json:"network_password,omitempty"`
 }
 
 type c11Case struct {
@@ -271,18 +273,30 @@ func c11Execute(c *c11Case, base string, rec *vh.Recorder) (fail *vh.Failure, la
 			}
 		case "private":
 			// a fresh wrapper per probe keeps the wrong-password back-off at 1 ms
-			h := api.NewHTTP(ircServer, node, ircStore, outputStream, &rafthttp.HTTPTransport{}, *network, nodePassword, dir, "n1", true, 3)
+			// the network password of this probe: as configured, verbatim (it may come from a file or
+			// an environment variable and carry blanks or a newline)
+			pw := st.Password
+			if pw == "" {
+				pw = nodePassword
+			}
+			h := api.NewHTTP(ircServer, node, ircStore, outputStream, &rafthttp.HTTPTransport{}, *network, pw, dir, "n1", true, 3)
 			nn := &inode{dir: dir, h: h}
 			user, pass := "", ""
 			switch st.Auth {
 			case "wronguser":
-				user, pass = "admin", nodePassword
+				user, pass = "admin", pw
 			case "wrongpw":
-				user, pass = "robustirc", nodePassword+"x"
+				user, pass = "robustirc", pw+"x"
 			case "empty":
 				user, pass = "robustirc", ""
+			case "trimmed":
+				// close to the password, but not the password
+				user, pass = "robustirc", strings.TrimSpace(pw)
+				if pass == pw {
+					pass = pw[:len(pw)-1]
+				}
 			case "correct":
-				user, pass = "robustirc", nodePassword
+				user, pass = "robustirc", pw
 			}
 			if st.Auth == "correct" {
 				// routes that would stop the process, change the cluster, or need a live peer are only probed without the password
@@ -351,7 +365,8 @@ func TestVerifC11(t *testing.T) {
 					Cred:   rapid.SampledFrom([]string{"none", "empty", "wrong", "truncated", "extended", "other", "other", "deleted", "correct"}).Draw(rt, "cred")}
 			default:
 				st = c11Step{Kind: "private", Method: rapid.SampledFrom([]string{"GET", "POST", "GET", "POST", "DELETE", "PUT", "HEAD"}).Draw(rt, "method"),
-					Auth: rapid.SampledFrom([]string{"none", "wronguser", "wrongpw", "empty", "correct"}).Draw(rt, "auth")}
+					Auth:     rapid.SampledFrom([]string{"none", "wronguser", "wrongpw", "empty", "trimmed", "correct"}).Draw(rt, "auth"),
+					Password: rapid.SampledFrom([]string{"", "", "", "s3cret\n", " s3cret", "two words ", " ", "pw:with:colons"}).Draw(rt, "networkpassword")}
 				if rapid.IntRange(0, 5).Draw(rt, "randompath") == 0 {
 					st.Path = "/" + rapid.StringMatching(`[a-z/]{0,12}`).Draw(rt, "path")
 				} else {
